@@ -22,7 +22,11 @@
 // A name that was given a second entry while it existed (Register under an existing name,
 // Replace carrying Before/After) is held to what the statement still fixes: some handler
 // of the name fires, none twice, the handler of a later plain Replace fires, and after a
-// Remove none of them fires - whichever way the second entry came about.
+// Remove none of them fires - whichever way the second entry came about. The call that made the
+// NEWEST entry returned nil, so the named Before/After it carried has to hold for the handler of
+// the name that fires (gorm either moves the callback or reports "conflicting callback"); and a
+// callback that names such a name in its own Before/After still has to fire on that side of it
+// (the name fires once, wherever that is).
 // "The pipeline runs every callback exactly once" is demanded of every run of the pipeline, not
 // only of a healthy statement: after the healthy execution the same handle executes the pipeline
 // again, once per entry (see entries): a second time; with an error attached to the statement
@@ -59,6 +63,22 @@
 //	side:star:earlier-life        same, neither, but the name was removed earlier and a call that registered it
 //	                              in that earlier life carried a named request
 //	side:star:other               same, no named request touches the callback or an earlier life of its name
+//	side:before:multi-entry / side:after:multi-entry
+//	                              a name that existed was registered again with Before/After(t), the call
+//	                              returned nil, the name fires on the other side of t
+//	side:before:replace-request / side:after:replace-request
+//	                              same, the newest entry was made by Before/After(t).Replace
+//	side:<..>:multi-target        (suffix) the callback named by the broken request has several entries
+//	side:multi-entry:rewritten / side:multi-target:rewritten
+//	                              as the four above, and the structural precondition of the sorter's known
+//	                              rewriting of stored requests holds: another Register/Replace call names
+//	                              the callback that lost its side, or an earlier call under its name carried
+//	                              a named request (one class for either side and either kind of call)
+//	contradiction-accepted:named:multi-entry / :star:multi-entry
+//	                              no order satisfies everything requested, but one does when the requests
+//	                              involving names with several entries are left out; no call returned an error
+//	contradiction-accepted:multi-entry:rewritten / contradiction-accepted:multi-target:rewritten
+//	                              same, one of those requests meets the rewriting precondition
 //	contradiction-accepted:named  the named constraints (+ built-in order) cannot all hold,
 //	                              no call returned an error, a constraint is broken
 //	contradiction-accepted:star   satisfiable without the "*" constraints, not with them
@@ -377,22 +397,28 @@ func moveSeq(p *pipeline, idx int) []step {
 }
 
 // multiSeq enumerates the family "a name x that exists is given a second entry, then a call is
-// made on x" (sequences of length 3..6, 1 440 per pipeline). x is a user callback (u1, with a
+// made on x" (sequences of length 3..6, 2 376 per pipeline). x is a user callback (u1, with a
 // neighbour u2 registered after it) or the main built-in of the pipeline (neighbour u1).
 //
 //	x = u1 first registered: plain | Before(main) | After(main) | Before("*") | After("*")
 //	neighbour y            : plain | Before(x) | After(x)
 //	second entry for x     : Register | Before(b).Register | After(b).Register | Before(y).Register |
 //	                         After(y).Register | After("*").Register | Before(b).Replace |
-//	                         After(b).Replace | After(y).Replace | Before("*").Replace
+//	                         After(b).Replace | After(y).Replace | Before("*").Replace |
+//	                         Before(b).After(y).Register | Before(y).Replace
 //	                         (b = main built-in; for x = main built-in: the first built-in, or nothing
 //	                         when the pipeline has one built-in only)
 //	then                   : nothing | Remove(x) | Remove(x), Register(x) | Remove(x), After(y).Register(x) |
 //	                         Replace(x) | Replace(x), Remove(x) | Before(y).Remove(x) |
-//	                         Register(x) (third entry), Remove(x)
+//	                         Register(x) (third entry), Remove(x) | After(y).Register(x) (third entry) |
+//	                         Before(b).Register(x) (third entry) | After(x).Register(u3) (a new callback
+//	                         that names x)
+//
+// A second (third) entry that carries a request is made both where the position x already has
+// satisfies the request and where it does not: the call has to return an error or x has to move.
 const (
-	multiSecond = 10
-	multiTail   = 8
+	multiSecond = 12
+	multiTail   = 11
 	multiUser   = 5 * 3 * multiSecond * multiTail
 	multiBuilt  = 3 * multiSecond * multiTail
 	multiCount  = multiUser + multiBuilt
@@ -460,6 +486,10 @@ func multiSeq(p *pipeline, idx int) []step {
 		reg(opReplace, x, none, y)
 	case 9:
 		reg(opReplace, x, idStar, none)
+	case 10:
+		reg(opRegister, x, b, y)
+	case 11:
+		reg(opReplace, x, y, none)
 	}
 	switch idx % multiTail {
 	case 1:
@@ -480,6 +510,12 @@ func multiSeq(p *pipeline, idx int) []step {
 	case 7:
 		reg(opRegister, x, none, none)
 		reg(opRemove, x, none, none)
+	case 8:
+		reg(opRegister, x, none, y)
+	case 9:
+		reg(opRegister, x, b, none)
+	case 10:
+		reg(opRegister, userBase+2, none, x)
 	}
 	return seq
 }
@@ -685,16 +721,21 @@ type nameState struct {
 	// Replace carrying Before/After). The statement fixes neither which of the handlers runs nor
 	// where; it still fixes that some handler of the name runs, none of them more than once, that
 	// the handler of a later plain Replace runs (mustLast) and that none runs after a Remove.
-	multi        bool
-	mustLast     bool  // the newest handler is the one that has to fire
-	pastNamed    bool  // the name had an earlier life (ended by Remove) in which a call registering it carried a named request
-	namedBy      bool  // a Register/Replace call of another callback (live or removed since) names it in Before/After
-	alts         []int // multi: the older handlers, still acceptable
+	multi     bool
+	mustLast  bool  // the newest handler is the one that has to fire
+	pastNamed bool  // the name had an earlier life (ended by Remove) in which a call registering it carried a named request
+	namedBy   bool  // a Register/Replace call of another callback (live or removed since) names it in Before/After
+	alts      []int // multi: the older handlers, still acceptable
 	// multi: the requests carried by the call that made the NEWEST entry of the name (a Register under
 	// the existing name, or a Replace carrying Before/After). Whatever becomes of the older entries,
 	// this call asked for a side and returned nil: the handler of the name that fires has to be there.
 	lastBef, lastAft int
 	lastReplace      bool // that call was a Replace
+	// olderNamed: a Register/Replace call under this name made BEFORE that call (in this or an earlier
+	// life of the name) carried a named request. Together with namedBy this is the structural
+	// precondition of the sorter's known rewriting of stored requests (cs[idx].before/after = c.name
+	// lands on the newest entry of the name it hits).
+	olderNamed   bool
 	dead         []int // handlers that belonged to the name when a Remove hit it (this and earlier lives)
 	removedMulti bool  // the Remove that ended the current/last life hit a multi name
 }
@@ -733,7 +774,7 @@ func model(p *pipeline, seq []step) map[int]*nameState {
 				// a second entry under a name that exists
 				ns.alts = append(ns.alts, ns.handler)
 				ns.handler, ns.multi, ns.mustLast = i, true, false
-				ns.lastBef, ns.lastAft, ns.lastReplace = int(s.Bef), int(s.Aft), false
+				ns.lastBef, ns.lastAft, ns.lastReplace, ns.olderNamed = int(s.Bef), int(s.Aft), false, everNamed[n]
 			} else {
 				// (a built-in name that was removed and is registered anew is no built-in any more: unspecified)
 				fresh(n, &nameState{live: true, weak: n < userBase, handler: i, bef: int(s.Bef), aft: int(s.Aft), mustLast: true})
@@ -748,7 +789,7 @@ func model(p *pipeline, seq []step) map[int]*nameState {
 				} else {
 					ns.alts = append(ns.alts, ns.handler)
 					ns.handler, ns.multi, ns.mustLast = i, true, false
-					ns.lastBef, ns.lastAft, ns.lastReplace = int(s.Bef), int(s.Aft), true
+					ns.lastBef, ns.lastAft, ns.lastReplace, ns.olderNamed = int(s.Bef), int(s.Aft), true, everNamed[n]
 				}
 			} else {
 				fresh(n, &nameState{live: true, weak: true, handler: i, bef: none, aft: none, mustLast: true})
@@ -1204,9 +1245,16 @@ type outcome struct {
 const lateName = userBase + 8 // "u9": no generator uses it
 
 // lateCalls are the registration calls made once the pipeline has been executed: the registry must
-// take them up like any other call. A new callback is registered; the lowest live user callback is
-// Replace'd; the highest other live user callback is removed. None carries a request.
-func lateCalls(p *pipeline, seq []step) []step {
+// take them up like any other call, requests included. By case number:
+//
+//	a new callback u9 is registered: plain | Before(main built-in) | After(lowest live user callback) |
+//	                                 Before(lowest live user callback)      (case mod 4)
+//	the lowest live user callback  : Replace | Register again (a second entry made late) |
+//	                                 After("u9").Register again (a second entry whose request its
+//	                                 position does not satisfy unless it already fires after u9: an
+//	                                 error return, or it has to move)       (case/4 mod 3)
+//	the highest other live user callback is removed.
+func lateCalls(p *pipeline, seq []step, caseNo int) []step {
 	m := model(p, seq)
 	var users []int
 	for id, ns := range m {
@@ -1215,9 +1263,32 @@ func lateCalls(p *pipeline, seq []step) []step {
 		}
 	}
 	sort.Ints(users)
-	out := []step{{Op: opRegister, Name: lateName, Bef: none, Aft: none}}
+	mainB := p.reduced[len(p.reduced)/2]
+	first := step{Op: opRegister, Name: lateName, Bef: none, Aft: none}
+	switch caseNo % 4 {
+	case 1:
+		if m[mainB].live {
+			first.Bef = uint8(mainB)
+		}
+	case 2:
+		if len(users) > 0 {
+			first.Aft = uint8(users[0])
+		}
+	case 3:
+		if len(users) > 0 {
+			first.Bef = uint8(users[0])
+		}
+	}
+	out := []step{first}
 	if len(users) > 0 {
-		out = append(out, step{Op: opReplace, Name: uint8(users[0]), Bef: none, Aft: none})
+		s := step{Op: opReplace, Name: uint8(users[0]), Bef: none, Aft: none}
+		switch (caseNo / 4) % 3 {
+		case 1:
+			s.Op = opRegister
+		case 2:
+			s.Op, s.Aft = opRegister, lateName
+		}
+		out = append(out, s)
 	}
 	if len(users) > 1 {
 		out = append(out, step{Op: opRemove, Name: uint8(users[len(users)-1]), Bef: none, Aft: none})
@@ -1285,7 +1356,7 @@ func runSeq(pl int, seq []step, modeB, allEntries bool, caseNo int) outcome {
 	}
 	out.evs = out.runs[0].evs
 	if modeB && allEntries {
-		out.lateSteps = lateCalls(p, seq)
+		out.lateSteps = lateCalls(p, seq, caseNo)
 		for j, s := range out.lateSteps {
 			if err := apply(h.DB, pl, p, len(seq)+j, s); err != nil {
 				return out
@@ -1439,37 +1510,63 @@ func check(p *pipeline, m map[int]*nameState, trace []ev, modeA, touched, failed
 	// ordering requirements: Before/After constraints and the built-in order
 	reqs, skipped := requirements(p, m, false)
 	st.skippedWeak += skipped
-	var ord []problem
+	var ord []req
 	for _, r := range reqs {
 		x, ok1 := at(r.first)
 		y, ok2 := at(r.second)
 		if !ok1 || !ok2 {
 			continue
 		}
-		switch r.class {
-		case "builtin-order":
+		switch {
+		case r.class == "builtin-order":
 			st.builtinPairs++
-		case "side:star", "side:star:rewritten", "side:star:earlier-life", "side:star:other":
+		case strings.HasPrefix(r.class, "side:star"):
 			st.star++
 		default:
 			st.constraints++
 		}
 		if x > y {
-			ord = append(ord, problem{r.class, r.text})
+			ord = append(ord, r)
 		}
 	}
 	if len(ord) > 0 {
 		// was there an order satisfying everything that was requested? If not, the
-		// statement demands an error return; name the class after what is contradictory.
-		over := ""
-		if !satisfiable(reqs, false) {
-			over = "contradiction-accepted:named"
-		} else if !satisfiable(reqs, true) {
-			over = "contradiction-accepted:star"
+		// statement demands an error return; name the class after what is contradictory:
+		// the named requests, the "*" requests - and whether the contradiction is there without
+		// the requirements that involve a name with several entries (the known classes) or only
+		// with them (:multi-entry)
+		var plainReqs []req
+		multiSfx := ":multi-entry"
+		for _, r := range reqs {
+			if r.sfx == "" {
+				plainReqs = append(plainReqs, r)
+			} else if strings.HasSuffix(r.sfx, ":rewritten") {
+				multiSfx = ":multi-entry:rewritten" // (one of them meets the precondition of the known rewriting)
+			}
 		}
-		for _, pr := range ord {
+		over, overSfx := "", ""
+		switch {
+		case !satisfiable(plainReqs, false):
+			over = "contradiction-accepted:named"
+		case !satisfiable(plainReqs, true):
+			over = "contradiction-accepted:star"
+		case !satisfiable(reqs, false):
+			over, overSfx = "contradiction-accepted:named", multiSfx
+		case !satisfiable(reqs, true):
+			over, overSfx = "contradiction-accepted:star", multiSfx
+		}
+		for _, r := range ord {
+			pr := problem{r.class, r.text}
 			if over != "" {
-				pr = problem{over, "the requested constraints cannot all hold, yet no call returned an error: " + pr.text}
+				sfx := r.sfx
+				if sfx == "" {
+					sfx = overSfx
+				}
+				if strings.HasSuffix(sfx, ":rewritten") {
+					pr = problem{"contradiction-accepted" + sfx, "the requested constraints cannot all hold, yet no call returned an error: " + r.text}
+				} else {
+					pr = problem{over + sfx, "the requested constraints cannot all hold, yet no call returned an error: " + r.text}
+				}
 			}
 			out = append(out, pr)
 		}
@@ -1481,6 +1578,9 @@ func check(p *pipeline, m map[int]*nameState, trace []ev, modeA, touched, failed
 type req struct {
 	first, second int
 	class, text   string
+	// sfx: the part of class that says the requirement involves a name with several entries ("" for
+	// the requirements of single-entry callbacks and the built-in order)
+	sfx string
 }
 
 // requirements derives from the model every ordering the statement demands of a pipeline
@@ -1498,7 +1598,7 @@ func requirements(p *pipeline, m map[int]*nameState, withWeak bool) (out []req, 
 			continue
 		}
 		if lastID >= 0 {
-			out = append(out, req{lastID, id, "builtin-order", fmt.Sprintf("built-in %s fired before built-in %s", p.nameOf(id), p.nameOf(lastID))})
+			out = append(out, req{lastID, id, "builtin-order", fmt.Sprintf("built-in %s fired before built-in %s", p.nameOf(id), p.nameOf(lastID)), ""})
 		}
 		lastID = id
 	}
@@ -1524,21 +1624,25 @@ func requirements(p *pipeline, m map[int]*nameState, withWeak bool) (out []req, 
 				if side == 1 {
 					word, class = "after", "side:after"
 				}
-				how := "registered again"
+				how, sfx := "registered again", ":multi-entry"
 				if ns.lastReplace {
-					class += ":replace-request"
-					how = "Replace'd"
-				} else {
-					class += ":multi-entry"
+					how, sfx = "Replace'd", ":replace-request"
 				}
 				if ts.multi {
-					class += ":multi-target"
+					sfx += ":multi-target"
+				}
+				if ns.namedBy || ns.olderNamed {
+					// another call names this callback, or an earlier call under its name carried a named
+					// request: the sorter's known rewriting of stored requests (cs[idx].before/after = c.name,
+					// KF-C17-4 and its relatives) can land on the newest entry and replace what it asked for.
+					// One class for this precondition, whatever the side and the kind of call
+					class, sfx = "side", ":multi-entry:rewritten"
 				}
 				text := fmt.Sprintf("%s existed and was %s %s %s (the call returned nil) but fired on the other side of it", p.nameOf(id), how, word, p.nameOf(t))
 				if side == 0 {
-					out = append(out, req{id, t, class, text})
+					out = append(out, req{id, t, class + sfx, text, sfx})
 				} else {
-					out = append(out, req{t, id, class, text})
+					out = append(out, req{t, id, class + sfx, text, sfx})
 				}
 			}
 		}
@@ -1553,11 +1657,12 @@ func requirements(p *pipeline, m map[int]*nameState, withWeak bool) (out []req, 
 			if side == 1 {
 				word, class = "after", "side:after"
 			}
+			sfx := ""
 			mk := func(other int, cl, text string) {
 				if side == 0 {
-					out = append(out, req{id, other, cl, text})
+					out = append(out, req{id, other, cl, text, sfx})
 				} else {
-					out = append(out, req{other, id, cl, text})
+					out = append(out, req{other, id, cl, text, sfx})
 				}
 			}
 			if t == idStar {
@@ -1600,7 +1705,12 @@ func requirements(p *pipeline, m map[int]*nameState, withWeak bool) (out []req, 
 			if ts.multi {
 				// the named callback has several entries: where it fires is not fixed, but it fires once,
 				// and this callback asked for a side of it
-				class += ":multi-target"
+				sfx = ":multi-target"
+				if ns.namedBy {
+					// (another call names this callback: its stored request can be rewritten, as above)
+					class, sfx = "side", ":multi-target:rewritten"
+				}
+				class += sfx
 			}
 			mk(t, class, fmt.Sprintf("%s was registered %s %s but fired on the other side of it", p.nameOf(id), word, p.nameOf(t)))
 		}
@@ -1791,21 +1901,14 @@ func caseSeq(c *core.Ctx) (pl int, seq []step, origin string) {
 	return pl, randomSeq(c.R, &pipelines[pl]), "random"
 }
 
-func run(c *core.Ctx) {
-	pl, seq, origin := caseSeq(c)
-	p := &pipelines[pl]
-	desc := p.seqDesc(seq)
-	m := model(p, seq)
-	touched, usesStar := false, false
-	constrained, cSteps := 0, 0 // Before / After requests in the whole sequence, and calls carrying any
+// requestStats: does the sequence use "*"; how many Before / After requests it carries in all, and
+// how many of its calls carry any (the requests of a Remove call leave with it).
+func requestStats(seq []step) (usesStar bool, constrained, cSteps int) {
 	for _, s := range seq {
-		if int(s.Name) < userBase {
-			touched = true // Replace / Remove / a second Register under a built-in name
-		}
 		if s.Bef == idStar || s.Aft == idStar {
 			usesStar = true
 		}
-		if s.Op != opRemove { // (the requests of a Remove call leave with it)
+		if s.Op != opRemove {
 			if int(s.Bef) != none {
 				constrained++
 			}
@@ -1817,6 +1920,21 @@ func run(c *core.Ctx) {
 			}
 		}
 	}
+	return
+}
+
+func run(c *core.Ctx) {
+	pl, seq, origin := caseSeq(c)
+	p := &pipelines[pl]
+	desc := p.seqDesc(seq)
+	m := model(p, seq)
+	touched := false
+	for _, s := range seq {
+		if int(s.Name) < userBase {
+			touched = true // Replace / Remove / a second Register under a built-in name
+		}
+	}
+	usesStar, constrained, cSteps := requestStats(seq)
 	c.Inc("pipeline_" + p.name)
 	c.Inc(fmt.Sprintf("len_%d", len(seq)))
 	c.Inc("origin_" + strings.Fields(origin)[0])
@@ -1860,7 +1978,7 @@ func run(c *core.Ctx) {
 			// sequences that use "*" take a different path through the sorter (the
 			// registry is re-sorted); keep them apart from "*"-free witnesses
 			cl := cl0
-			if usesStar && !strings.Contains(cl, "star") {
+			if usesStar && !strings.Contains(cl, "star") && !strings.HasSuffix(cl, ":rewritten") {
 				cl += "+star"
 			}
 			// the known defects of the sorter all need two requests that interfere (one rewrites or
@@ -1988,15 +2106,18 @@ func run(c *core.Ctx) {
 		} else {
 			ext := append(append([]step{}, seq...), ob.lateSteps...)
 			mL := model(p, ext)
-			seen := map[problem]bool{}
+			// (a broken ordering that the execution before the late calls already showed is the same
+			// problem afterwards, also when the late calls change the class it falls under)
+			const contra = "the requested constraints cannot all hold, yet no call returned an error: "
+			seen := map[string]bool{}
 			for _, pr := range probs {
-				seen[pr] = true
+				seen[strings.Replace(pr.text, contra, "", 1)] = true
 			}
 			gl := groupByTable(ob.late.evs)
 			var stL checkStats
 			var lp []problem
 			for _, pr := range check(p, mL, gl[p.table], false, false, false, &stL) {
-				if !seen[pr] {
+				if !seen[strings.Replace(pr.text, contra, "", 1)] {
 					lp = append(lp, pr)
 				}
 			}
@@ -2006,7 +2127,7 @@ func run(c *core.Ctx) {
 				}
 				var st2 checkStats
 				for _, pr := range check(p, mL, g, false, false, false, &st2) {
-					if pr = (problem{pr.class, "nested execution on " + t + ": " + pr.text}); !seen[pr] {
+					if pr = (problem{pr.class, "nested execution on " + t + ": " + pr.text}); !seen[strings.Replace(pr.text, contra, "", 1)] {
 						lp = append(lp, pr)
 					}
 				}
@@ -2018,7 +2139,11 @@ func run(c *core.Ctx) {
 				bad = true
 				d := p.seqDesc(ext)
 				d = append(append(append([]string{}, d[:len(seq)]...), "/* the pipeline is executed: healthy, then once per entry of the Rule */"), d[len(seq):]...)
+				// (the signature suffixes speak of the whole sequence, late calls included)
+				s0, c0, k0 := usesStar, constrained, cSteps
+				usesStar, constrained, cSteps = requestStats(ext)
 				report("B", lp, gl[p.table], map[string]interface{}{"sequence": d, "fired_before_the_late_calls": traceDesc(p, main)})
+				usesStar, constrained, cSteps = s0, c0, k0
 			}
 		}
 		// Replace keeps the position: differential run without the Replace steps
@@ -2158,18 +2283,19 @@ var Engine = &core.Engine{
 	Level: "exploration",
 	Rule: "one case = one registration sequence on one of the six pipelines (Create, Query, Update, Delete, Row, Raw), applied to a fresh gorm handle and followed by a real execution of the pipeline against SQLite, twice: with the built-ins wrapped by recording functions (B) and on the pristine registry with the built-ins seen through driver events and model hooks (A). " +
 		"Calls: Register, Before(t).Register, After(t).Register, Before(t).After(t').Register (both chain orders), Replace, Remove; registered names: canonical fresh names, names removed earlier, and user names that exist at that moment (second entry under one name; in the enumeration such a call carries at most one request); targets t: every built-in of the pipeline, every user name introduced so far, the next name to be introduced (forward reference / unknown), '*'; Replace/Remove names: built-ins, user names, an unknown name. " +
-		"Enumerated completely: all sequences of length 0..2 on every pipeline (quick and thorough); thorough adds all sequences of length 3 with the built-in alphabet reduced to {first, main, last} built-in on Create/Update/Delete (full on Query/Row/Raw). Also enumerated on every pipeline: the 150 'move' sequences of length 4 (register u1 and u2 with plain/Before/After constraints, remove one, register it again with other constraints) and the 1 440 'second entry' sequences of length 3..6 (a name x that exists - a user callback registered plain / Before / After a built-in / Before or After '*', or the main built-in - gets a second entry through Register or through Before/After(..).Replace, with a neighbour registered plain / Before(x) / After(x); then nothing | Remove(x) | Remove, Register again (plain / After(neighbour)) | Replace(x) | Replace, Remove | Before(neighbour).Remove(x) | third Register, Remove). Then random sequences of length 3..8 over 5 user names (forward and removed names as targets, unknown name, '*', remove-and-register-again moves, second entries under existing user and built-in names by Register or by a Replace carrying a request, Remove calls carrying a request): 5 000 quick / 300 000 thorough. " +
-		"Entry into the pipeline: after the healthy execution (Create with belongs-to and has-many / Preload+Find / Model.Updates / Select.Delete / Row or Rows / Exec) EVERY case executes the pipeline again on the same handle, once per entry, and each execution is held to the same model: (repeat) the same operation a second time; (failed-statement: the statement carries an error before the first callback runs) tx.AddError on a session handle, a Scope that adds an error, a *int as model/destination (Statement.Parse fails; not for Exec), a nil *Main (ErrInvalidValue), a transaction handle from a Begin that the driver failed [B]; (driver-fault) [B] a healthy statement with the driver failing the (1 + case mod 3)-th call it receives (begin / statement / commit, also those of nested association writes); (session) [B] a DryRun session, a handle from db.Begin() rolled back afterwards. [B] = only with the wrapped built-ins; the others also on the pristine registry, where a failed statement shows the stubs only. A problem that the healthy execution already has is not reported again; a new one gets the signature <class>@<entry group>. Then, in mode B, 1..3 late registration calls are made on the executed registry (Register of a new name u9; Replace of the lowest live user callback; Remove of the highest other live user callback) and the pipeline is executed once more, checked against the model of the sequence including those calls (plain signatures). " +
+		"Enumerated completely: all sequences of length 0..2 on every pipeline (quick and thorough); thorough adds all sequences of length 3 with the built-in alphabet reduced to {first, main, last} built-in on Create/Update/Delete (full on Query/Row/Raw). Also enumerated on every pipeline: the 150 'move' sequences of length 4 (register u1 and u2 with plain/Before/After constraints, remove one, register it again with other constraints) and the 2 376 'second entry' sequences of length 3..6 (a name x that exists - a user callback registered plain / Before / After a built-in / Before or After '*', or the main built-in - gets a second entry through Register or through Before/After(..).Replace, with a neighbour registered plain / Before(x) / After(x); or through Before(built-in).After(neighbour).Register / Before(neighbour).Replace - so that the request of the second entry is in some sequences already met by the position x has and in others not: the call then has to return an error or x has to move; then nothing | Remove(x) | Remove, Register again (plain / After(neighbour)) | Replace(x) | Replace, Remove | Before(neighbour).Remove(x) | third Register, Remove | a third entry After(neighbour) | a third entry Before(built-in) | a new callback registered After(x)). Then random sequences of length 3..8 over 5 user names (forward and removed names as targets, unknown name, '*', remove-and-register-again moves, second entries under existing user and built-in names by Register or by a Replace carrying a request, Remove calls carrying a request): 5 000 quick / 300 000 thorough. " +
+		"Entry into the pipeline: after the healthy execution (Create with belongs-to and has-many / Preload+Find / Model.Updates / Select.Delete / Row or Rows / Exec) EVERY case executes the pipeline again on the same handle, once per entry, and each execution is held to the same model: (repeat) the same operation a second time; (failed-statement: the statement carries an error before the first callback runs) tx.AddError on a session handle, a Scope that adds an error, a *int as model/destination (Statement.Parse fails; not for Exec), a nil *Main (ErrInvalidValue), a transaction handle from a Begin that the driver failed [B]; (driver-fault) [B] a healthy statement with the driver failing the (1 + case mod 3)-th call it receives (begin / statement / commit, also those of nested association writes); (session) [B] a DryRun session, a handle from db.Begin() rolled back afterwards. [B] = only with the wrapped built-ins; the others also on the pristine registry, where a failed statement shows the stubs only. A problem that the healthy execution already has is not reported again; a new one gets the signature <class>@<entry group>. Then, in mode B, 1..3 late registration calls are made on the executed registry - a new name u9 is registered (by case mod 4: plain | Before(main built-in) | After(lowest live user callback) | Before(lowest live user callback)); the lowest live user callback is (by case/4 mod 3) Replace'd | registered again (a second entry made late) | registered again After(\"u9\") (a request its position normally contradicts: error return or move); the highest other live user callback is removed - and the pipeline is executed once more, checked against the model of the sequence including those calls (plain signatures, suffixes computed over the whole sequence). " +
+		"A name with several entries is held to: some handler fires, none twice, none after Remove, the handler of a later plain Replace fires, AND the named Before/After request of the call that made its newest entry holds (signatures side:before|after:multi-entry, :replace-request; :rewritten when another call names the callback or an earlier call under its name carried a named request); requests of other callbacks that name such a name are checked too (:multi-target). " +
 		"Ordering violations are classified by whether an order satisfying everything requested exists (side:*) or not (contradiction-accepted:*: the statement then demands an error return). distinct = (pipeline, literal sequence); non-trivial = no call returned an error, the pipeline ran, and at least one Before/After constraint with a running target, one removal, one replacement or one name with several entries was checked against the firing order",
 	Assumptions: []string{
-		"a second entry under a name that exists at that moment (Register of an existing user or built-in name; Replace carrying Before/After, which gorm stores as an entry of its own) IS generated, but the statement does not say which of the handlers then runs nor where: demanded is only that some handler of the name fires, none of them twice, that the handler of a later plain Replace fires, and that after Remove(name) none of them fires (and a later Register of the name starts afresh); Before/After requests of and towards such a name, its Replace position and the built-in order relative to it are not checked",
+		"a second entry under a name that exists at that moment (Register of an existing user or built-in name; Replace carrying Before/After, which gorm stores as an entry of its own) IS generated, but the statement does not say which of the handlers then runs nor where: demanded is that some handler of the name fires, none of them twice, that the handler of a later plain Replace fires, that after Remove(name) none of them fires (and a later Register of the name starts afresh), that the NAMED Before/After request carried by the call that made the newest entry holds for the handler that fires (that call returned nil; whether the name is one callback defined anew or several callbacks, this request stands), and that a callback naming such a name fires on the requested side of it. Not checked: the requests of the older entries of the name (a later registration may be read as superseding them), a '*' request of a second entry, the Replace position of such a name and the built-in order relative to it",
 		"a built-in name that was removed and is then registered again is treated the same way (position unspecified); the random generator does not produce it",
 		"a callback never names itself in Before/After; the Before/After requests of a Remove call mean nothing (the callback is removed all the same); plain Replace and Remove are the only forms in the exhaustive enumeration; Match is not used",
 		"'*' is read weakly: a callback registered Before(\"*\") (After(\"*\")) must fire before (after) every built-in and every callback registered without any Before/After; nothing is demanded relative to callbacks that carry constraints of their own",
 		"Replace of a name that does not exist at that moment is generated, but the resulting callback is only required to fire at most once, and constraints naming it are not checked (the statement defines Replace by the replaced callback's position)",
 		"the sequence stops at the first call that returns an error (accepted outcome); the pipeline is then not executed",
 		"the statement's 'the pipeline runs every ... callback exactly once' is read as holding for every call of processor.Execute whatever the state of the statement: a statement that reaches the callbacks with db.Error already set still runs every registered callback once (the built-ins guard on db.Error themselves). Only finishers that always reach Execute are used (Create, Find, Updates, Delete, Rows, Exec); Row() is not used on a failed statement or in DryRun (it returns an empty *sql.Row there). Which error such a statement ends with is not checked",
-		"an execution of the pipeline does not change the registry, so registration calls made after an execution are held to the model of the whole sequence; a late call that returns an error is an accepted outcome (the last execution is then skipped). Registration through a derived session or transaction handle, Match, and executions concurrent with registration are not generated",
+		"an execution of the pipeline does not change the registry, so registration calls made after an execution are held to the model of the whole sequence; a late call that returns an error is an accepted outcome (the last execution is then skipped). Registration through a derived session or transaction handle, Match, a builder returned by Before/After used for more than one call, Before(a).Before(b) chains, and executions concurrent with registration are not generated",
 		"entries marked [B] in the Rule are run with the wrapped built-ins only: on the pristine registry the effects of the built-ins under a driver fault, in DryRun or inside an outer transaction are not the ones mode A is keyed to",
 		"position of a Replace'd callback = same side of every other callback as in a reference run of the sequence without its Replace calls (skipped when the reference run returns an error)",
 		"mode A: gorm:setup_reflect_value has no visible effect and is only covered by mode B; when the sequence replaces or removes a built-in, the effects of the other built-ins are required at most once (their visibility may depend on the missing one)",
